@@ -52,6 +52,8 @@ F = [
  ("C10","C10-version-listed-twice-after-crash","fixed","a4b37bd","process crash between the in-place update of the version index and the manifest switch of the same flush: after recovery the history listed those versions twice (once from the replayed memtable, once from the index)"),
  ("C10","C10-version-index-not-crash-consistent","open","","the B+tree version index is updated in place without journaling: a process crash between its page writes (header / node pages) leaves a tree file that does not load ('B+ tree error: Deserialization error: Invalid child count'), so the store does not open or versioned reads fail. Not repaired: needs a crash-safe update protocol for the index file (shadow paging or a log), far beyond a small patch"),
  ("C17","C17-wakeup-lost-before-idle","fixed","7c3c34e","a memtable rotated in while the flush task was between its last look at the queue and clearing its running flag was never flushed (the wake-up is skipped while the flag is set): the task went idle, the immutable-memtable limit was reached and every commit waited in the write stall forever (seen as a quiescent process with 12 commits outstanding in a stress history)"),
+ ("C15","C15-failed-apply-poisons-memtable","fixed","fde39b2","a commit failed in its apply step on an empty memtable (batch just below the memtable size): the arena was used up, the rotation was skipped because the memtable held no entry, and every later commit failed with 'Memtable arena is full' until restart"),
+ ("C04","C04-rollback-forgets-earlier-committer","fixed","0fd085e","a failed commit rolled back its conflict-map entry by removing it, which also forgot the earlier committer of that key: a transaction begun before that earlier commit then wrote the key and committed without a conflict (lost update)"),
  ("C11","C11-vlog-rotation-inside-flush-not-synced","fixed","f424741","a value-log file rotated away inside a flush was never fsynced; after power loss the installed table pointed at missing bytes"),
 ]
 out = {"_comment": "Committed; never written at run time. status=open: the directed scenario with the same id (harness/src/scenarios.rs or harness/src/props/crash.rs) still fails on the tree; the check prints KNOWN-FINDING for it and the generators mask exactly that pattern. status=fixed: repaired by the named fix: commit in /repo; suppresses nothing - the scenario stays in the check as a regression monitor and reports VIOLATION if the behaviour returns.",
